@@ -41,7 +41,9 @@ impl<'a> VersionChunkIter<'a> {
         };
 
         let zeros = source.chars().take_while(|c| *c == '0').count();
-        let value = source.parse::<usize>().ok()?;
+        // A digit run too long for a `usize` is still a number: `version_sort` compares the
+        // digits themselves, `value` only saturates.
+        let value = source.parse::<usize>().unwrap_or(usize::MAX);
 
         Some(VersionChunk::Number {
             value,
@@ -130,6 +132,12 @@ enum MoreLeadingZeros {
     Equal,
 }
 
+/// Compares two runs of decimal digits without leading zeros by their numeric value,
+/// whatever their length.
+fn cmp_digits(a: &str, b: &str) -> std::cmp::Ordering {
+    a.len().cmp(&b.len()).then_with(|| a.cmp(b))
+}
+
 /// Compare two identifiers based on the version sorting algorithm described in [the style guide]
 ///
 /// [the style guide]: https://doc.rust-lang.org/nightly/style-guide/#sorting
@@ -160,16 +168,16 @@ pub(crate) fn version_sort(a: &str, b: &str) -> std::cmp::Ordering {
                 }
                 (
                     VersionChunk::Number {
-                        value: va,
                         zeros: lza,
+                        source: sa,
                         ..
                     },
                     VersionChunk::Number {
-                        value: vb,
                         zeros: lzb,
+                        source: sb,
                         ..
                     },
-                ) => match va.cmp(&vb) {
+                ) => match cmp_digits(&sa[lza..], &sb[lzb..]) {
                     std::cmp::Ordering::Equal => {
                         if lza == lzb {
                             continue;
